@@ -256,6 +256,8 @@ def run(repo: Repo, rep):
     r2_filtering(repo, rep)
     r2_pullback(repo, rep, rule_id="R-C01-3")
     r4_dependent_product(repo, rep)
+    from .c02 import r3_per_row_loops  # stale per-row state returns points sampled for another parameter row
+    r3_per_row_loops(repo, rep)
     from .c05 import r1_truth_tables  # the membership formulas the implication targets must be the set algebra
     r1_truth_tables(repo, rep)
 
